@@ -120,6 +120,11 @@ func c07Eval(e *Env, m *refplay.Model, c *playCase, report bool) bool {
 	if err != nil {
 		return fail("C07/undecodable/"+c.Path, "output is not a readable SMF: "+err.Error())
 	}
+	if int64(f.Division) != m.T {
+		mm := *m
+		mm.T = int64(f.Division)
+		m = &mm
+	}
 	obs, off := controlView(f)
 	if msg := refplay.Match(controlExpect(m, c.Insts, c.Cfg.Flags), obs); msg != "" {
 		return fail("C07/"+c07Class(msg)+"/"+c.Path, fmt.Sprintf("%s; flags %v; document %s; observed %s", msg, c.Cfg.Flags.Args(), c07Doc(c), obs.Describe()))
